@@ -12,6 +12,7 @@ import (
 	"path/filepath"
 	"sort"
 	"strings"
+	"syscall"
 
 	kv "github.com/XiXi-2024/xixi-kv"
 	"github.com/XiXi-2024/xixi-kv/datatype"
@@ -508,6 +509,51 @@ func (r *EngineRunner) Exec(f []string) (res string) {
 			return "err " + EngErr(err) + r.takeEvents(true)
 		}
 		return "ok" + r.takeEvents(true)
+	case "closefail":
+		// Close while one data file cannot be synced: the descriptor of that file is replaced (dup2) by the
+		// read end of a pipe, on which fsync / ftruncate fail.  Everything written before is in the file, so
+		// for the model this is a Close; whatever Close reports, the directory lock must be gone afterwards.
+		r.ref.beforeClose(r)
+		r.so.opKind = "other"
+		var fds []int
+		if ents, err := os.ReadDir("/proc/self/fd"); err == nil {
+			for _, e := range ents {
+				t, err := os.Readlink("/proc/self/fd/" + e.Name())
+				if err == nil && filepath.Dir(t) == r.dir() && strings.HasSuffix(t, string(datafile.DataFileSuffix)) {
+					fds = append(fds, atoi(e.Name()))
+				}
+			}
+		}
+		sort.Ints(fds)
+		note := "no-data-file-descriptor"
+		var pr, pw *os.File
+		if len(fds) > 0 {
+			victim := fds[atoi(f[2])%len(fds)]
+			var err error
+			if pr, pw, err = os.Pipe(); err == nil {
+				if err := syscall.Dup3(int(pr.Fd()), victim, 0); err != nil {
+					note = "dup3-failed"
+				} else {
+					note = fmt.Sprintf("descriptor-%d-of-%d-replaced", atoi(f[2])%len(fds), len(fds))
+				}
+			}
+		}
+		saved1, saved2 := fio.VerifEvent, kv.VerifFsEvent
+		fio.VerifEvent, kv.VerifFsEvent = nil, nil
+		err := r.db.Close()
+		fio.VerifEvent, kv.VerifFsEvent = saved1, saved2
+		r.db = nil
+		r.events = nil
+		if pr != nil {
+			_ = pr.Close()
+			_ = pw.Close()
+		}
+		if err != nil {
+			note += " close-error"
+		} else {
+			note += " close-ok"
+		}
+		return "ok # " + note
 	case "put":
 		k, _ := ParseTok(f[2])
 		v, _ := ParseTok(f[3])
